@@ -102,15 +102,16 @@ HexGuardPasses(x, g) ==
 
 (* what the reader as read converts without complaint (besides Sure):      *)
 (* Python's int() / float() / CIMDateTime() are more generous than DSP0201  *)
-IntAccepted == {"hex", "hexPlus", "decPlus", "fraction", "exponent",
-                "underscore", "uniDigits", "leadingZero", "padded"}
-RealAccepted == IntAccepted \cup {"hugeExp", "nan", "inf"}
+IntAccepted == {"hex", "hexPlus", "decPlus", "fraction", "bareDot",
+                "exponent", "underscore", "uniDigits", "leadingZero", "padded"}
+RealAccepted == IntAccepted \cup {"hugeExp", "hugeDecX", "nan", "inf"}
 LexAccepted ==
   [p \in LexPositions |->
      CASE p \in IntPositions -> IntAccepted
        [] p = "realValue" -> RealAccepted
        [] p = "keyNumValue" -> RealAccepted \cup {"hexHuge", "hugeDec"}
        [] p = "keyType" -> {"empty"}          \* TYPE="" is taken as absent
+       [] p \in {"propTypeNull", "clsParamType"} -> {"reference"}
        [] p \in {"boolValue", "boolAttr"} -> {"upper", "padded", "empty"}
        [] p = "dtValue" -> {"interval", "uniDigits", "hugeOffset",
                             "asterisks"}
